@@ -470,6 +470,75 @@ def case_corrupt(p):
     return out
 
 
+def case_frame_order(p):
+    """Whole, intact frames at the wrong place in the stream: k frames removed, two frames swapped, a later frame arriving early, a frame
+    twice.  A frame is authentic only at its own position (the counter is the nonce): the first misplaced frame fails authentication there,
+    nothing of it or behind it is delivered, and the session ends.  p: msgs, sizes, edits (list of ('drop', i, k) | ('swap', i, j) |
+    ('early', i, j) | ('twice', i))."""
+    stream, sent, bounds = build_stream(p["msgs"], p["sizes"])
+    frames = [stream[s_:e_] for s_, e_, _ in bounds]
+    out = []
+    trans = 0
+    loop = vloop.VirtualLoop().install()
+    try:
+        for edit in p["edits"]:
+            kind = edit[0]
+            fr = list(frames)
+            if kind == "drop":
+                i, k = edit[1], edit[2]
+                if i + k > len(fr) - 1:
+                    continue
+                del fr[i : i + k]
+                first_bad = i
+            elif kind == "swap":
+                i, j = edit[1], edit[2]
+                if j >= len(fr) or i >= j or fr[i] == fr[j]:
+                    continue
+                fr[i], fr[j] = fr[j], fr[i]
+                first_bad = i
+            elif kind == "early":
+                i, j = edit[1], edit[2]
+                if j >= len(fr) or i >= j:
+                    continue
+                fr.insert(i, fr.pop(j))
+                first_bad = i
+            else:
+                i = edit[1]
+                if i >= len(fr) - 1:
+                    continue
+                fr.insert(i + 1, fr[i])
+                first_bad = i + 1
+            allowed = bounds[first_bad][2]
+            net = vloop.SimNet(loop)
+            att = {"t": 0, "hosts": ["h"], "port": 1, "fut": loop.create_future(), "outcome": None}
+            conn = net.accept(att, "h")
+            proto = make_secure(0)
+            proto.result_cbs = []
+            tr = vloop.MemTransport(loop, proto, att["fut"].result())
+            loop.run_until_idle()
+            for f in fr:
+                if tr.is_closing():
+                    break
+                conn.send(f)
+                trans += 1
+                loop.run_until_idle()
+            events = [e for e in proto._vt_log if e[0] == "EVENT"]
+            det = {"edit": list(edit), "frames": len(frames), "first_misplaced_frame": first_bad, "events_delivered": len(events), "events_complete_before_it": allowed, "sizes": p["sizes"]}
+            if len(events) > allowed:
+                out.append((f"order:plaintext-of-or-behind-a-misplaced-frame-delivered:{kind}", det))
+            elif len(events) < allowed:
+                out.append(("order:authentic-messages-in-front-of-the-misplaced-frame-lost", det))
+            if not tr.is_closing():
+                out.append((f"order:session-not-ended-by-a-misplaced-frame:{kind}", det))
+            loop.run_until_idle()
+            if out:
+                return out
+    finally:
+        loop.shutdown()
+        p["_stats"] = (0, trans, len(stream))
+    return out
+
+
 def case_e2e(p):
     """End to end on the rig: the accessory frames a large response with the given sizes; result must be exact."""
     import json
@@ -583,7 +652,7 @@ def case_e2e_corrupt(p):
     return out
 
 
-CASES = {"e2e_early_request": case_e2e_early_request, "outbound_cancel": case_outbound_cancel, "bigreads": case_bigreads, "send_between": case_send_between, "framesplits": case_framesplits, "e2e_corrupt": case_e2e_corrupt, "outbound": case_outbound, "graph": case_graph, "cuts": case_cuts, "corrupt": case_corrupt, "e2e": case_e2e}
+CASES = {"frame_order": case_frame_order, "e2e_early_request": case_e2e_early_request, "outbound_cancel": case_outbound_cancel, "bigreads": case_bigreads, "send_between": case_send_between, "framesplits": case_framesplits, "e2e_corrupt": case_e2e_corrupt, "outbound": case_outbound, "graph": case_graph, "cuts": case_cuts, "corrupt": case_corrupt, "e2e": case_e2e}
 
 
 def _work(item, seed, tier):
@@ -614,6 +683,13 @@ def run(ctx):
     for k in range(0, 40):
         for api in ("get", "put"):
             work.append(("e2e_early_request", {"k": k, "api": api}))
+    # whole frames at the wrong place: 12 events in frames of 25 (3 frames per event) and of 1024 (one frame per event)
+    for sizes in ([25], [1024], [7]):
+        nfr = {25: 3, 1024: 1, 7: 11}[sizes[0]] * 12
+        idx = range(nfr) if not quick else sorted(set(list(range(0, 8)) + list(range(8, nfr, 5))))
+        edits = [("drop", i, k) for i in idx for k in (1, 2, 3, 4, 5, 6, 7, 12)] + [("swap", i, j) for i in idx for j in (i + 1, i + 2, i + 5, i + 6)] + [("early", i, j) for i in idx for j in (i + 1, i + 3, i + 5, i + 6)] + [("twice", i) for i in idx]
+        for c in range(0, len(edits), 120):
+            work.append(("frame_order", {"msgs": [dict(MSG_EVENT, body=('{"characteristics":[{"aid":1,"iid":10,"value":%d}]}' % n_).encode()) for n_ in range(12)], "sizes": sizes, "edits": edits[c : c + 120]}))
     # a request abandoned by its caller after k loop iterations (small, several blocks, beyond 64 KiB and 128 KiB), then another one
     for n1 in (1, 1024, 5000, 65536, 65537, 70000, 140000, 200000) if quick else (0, 1, 1023, 1024, 1025, 5000, 32768, 65535, 65536, 65537, 70000, 131072, 131073, 140000, 200000, 300000, 600000):
         for k in range(0, 6 if quick else 12):
